@@ -69,8 +69,38 @@ func (p c13) Run(c *core.Ctx) {
 			}
 		}
 	}
+	// a runner whose own creation fails (permanently, or on the first attempt only): the start must fail
+	// and no runner may run - the runner must not silently disappear from the sequence
+	creationFault := -1
+	if nr > 0 && c.Rng.Intn(6) == 0 {
+		var cands []int
+		for _, k := range runners {
+			if ti := world.Palette[sc.Nodes[k].Type]; ti.Init || ti.Aps {
+				cands = append(cands, k)
+			}
+		}
+		if len(cands) > 0 {
+			creationFault = cands[c.Rng.Intn(len(cands))]
+			kind := "init"
+			if !world.Palette[sc.Nodes[creationFault].Type].Init {
+				kind = "aps"
+			}
+			if c.Rng.Intn(2) == 0 {
+				sc.Nodes[creationFault].FailOnce = append(sc.Nodes[creationFault].FailOnce, kind)
+			} else {
+				sc.Nodes[creationFault].Fails = append(sc.Nodes[creationFault].Fails, kind)
+			}
+		}
+	}
+	// an eager "factory aware" component: still a component, must be initialised before any runner
+	var fa *world.FactoryAware
+	var extra []any
+	if c.Rng.Intn(3) == 0 {
+		fa = &world.FactoryAware{Nm: []string{"a-factory-aware", "z-factory-aware"}[c.Rng.Intn(2)]}
+		extra = append(extra, fa)
+	}
 	var failing []int
-	if nr > 0 && c.Rng.Intn(2) == 0 {
+	if nr > 0 && creationFault < 0 && c.Rng.Intn(2) == 0 {
 		for x := 0; x < 1+c.Rng.Intn(2); x++ {
 			f := runners[c.Rng.Intn(len(runners))]
 			if !contains(sc.Nodes[f].Fails, "run") {
@@ -80,7 +110,7 @@ func (p c13) Run(c *core.Ctx) {
 		}
 	}
 	g.ShuffleOrders()
-	r := world.Start(sc, world.Options{})
+	r := world.Start(sc, world.Options{Extra: extra})
 	c.Count("starts", 1)
 	c.Count("outcome_"+r.Outcome(), 1)
 	if abnormal(r.Outcome()) {
@@ -106,7 +136,33 @@ func (p c13) Run(c *core.Ctx) {
 		}
 	}
 	fail := func(msg string) {
-		c.Fail("", msg, failDetail(sc, r, map[string]any{"failing_runners": failing, "run_sequence": fmt.Sprint(seq), "events": renderEvents(ev, 150)}))
+		c.Fail("", msg, failDetail(sc, r, map[string]any{"failing_runners": failing, "runner_with_creation_fault": creationFault, "run_sequence": fmt.Sprint(seq), "events": renderEvents(ev, 150)}))
+	}
+	if creationFault >= 0 {
+		c.Count("runner_creation_faults", 1)
+		if r.Outcome() != "error" {
+			fail(fmt.Sprintf("the creation of runner %s failed (Init/AfterPropertiesSet error) but App.Run returned nil", sc.Nodes[creationFault].DisplayName()))
+			return
+		}
+		if len(seq) > 0 {
+			fail(fmt.Sprintf("%d runner(s) were invoked although the creation of runner %s failed during start-up", len(seq), sc.Nodes[creationFault].DisplayName()))
+			return
+		}
+		c.Nontrivial(sc.GraphSig())
+		return
+	}
+	if fa != nil && r.Outcome() != "panic" {
+		faInit := -1
+		for _, e := range ev {
+			if e.Kind == "init" && e.Who == fa.Nm {
+				faInit = e.Seq
+			}
+		}
+		if len(seq) > 0 && (faInit < 0 || faInit > firstRun) {
+			fail(fmt.Sprintf("a runner ran (event %d) although the eager component %s had not been initialised (its Init: %d)", firstRun, fa.Nm, faInit))
+			return
+		}
+		c.Count("factory_aware_components_checked", 1)
 	}
 	for i, k := range ran {
 		if k > 1 {
